@@ -304,6 +304,27 @@ theorem RLe.bind {r r' : Res} {f f' : Val → Res} (h : RLe r r') (hf : ∀ v v'
     subst hv'
     exact ho'
 
+/-- `bind` when the continuation is only known to respect refinement between well-formed right-hand values -/
+theorem RLe.bind2 {r r' : Res} {f f' : Val → Res} (h : RLe r r') (h' : RLe r' r')
+    (hf : ∀ v v', VLe v v' → VLe v' v' → RLe (f v) (f' v')) : RLe (r >>= f) (r' >>= f') := by
+  intro out ho
+  cases r with
+  | error e => exact absurd (show (Except.error e : Res) = .ok out from ho) (by simp)
+  | ok v =>
+    obtain ⟨v', hv', hvv⟩ := h v rfl
+    obtain ⟨v'', hv'', hvv'⟩ := h' v' hv'
+    have : v'' = v' := by rw [hv'] at hv''; cases hv''; rfl
+    subst this
+    have ho2 : f v = .ok out := ho
+    obtain ⟨o', ho', hoo⟩ := hf v v'' hvv hvv' out ho2
+    refine ⟨o', ?_, hoo⟩
+    subst hv'
+    exact ho'
+
+theorem RLe.wf_of_self {r : Res} (h : RLe r r) {v : Val} (hv : r = .ok v) : VLe v v := by
+  obtain ⟨v', hv', hvv⟩ := h v hv
+  rw [hv] at hv'; cases hv'; exact hvv
+
 theorem ELe.toRLe {r r' : Res} (h : ELe r r') (hwf : ∀ v, r = .ok v → VLe v v) : RLe r r' :=
   fun v hv => ⟨v, h v hv, hwf v hv⟩
 
